@@ -574,6 +574,10 @@ func (ex *Exec) goStmt(fn Value, args []Value, in *ssa.Go, fr *frame) {
 	name := "go@" + fr.shortPos(in)
 	ex.spawn(fn, args, name)
 	ex.note("goroutine-spawned")
+	if ex.preemptAtGo {
+		// the new goroutine may run before the statement after `go`: a scheduling point
+		ex.scheduler().yield("go@" + fr.shortPos(in))
+	}
 }
 
 func (ex *Exec) makeChan(in *ssa.MakeChan, size Value) Value {
